@@ -15,15 +15,15 @@
 import numpy as np
 from numpy cimport ndarray
 
-from ...core._ext.types import LAG, FIELD, DFIELD, NODE
-from ...core._ext.types cimport LAG_t, FIELD_t, DFIELD_t, NODE_t
+from ...core._ext.types import FIELD, DFIELD, NODE
+from ...core._ext.types cimport FIELD_t, DFIELD_t, NODE_t
 
 # coupling_analysis ===========================================================
 
 
 def _symmetrize_by_absmax(
         ndarray[FIELD_t, ndim=2, mode='c'] similarity_matrix not None,
-        ndarray[LAG_t, ndim=2, mode='c'] lag_matrix not None, int N):
+        ndarray[NODE_t, ndim=2, mode='c'] lag_matrix not None, int N):
 
     cdef:
         int i, j, I, J
@@ -50,8 +50,8 @@ def _cross_correlation_max(
     cdef:
         ndarray[FIELD_t, ndim=2, mode='c'] similarity_matrix = np.ones(
             (N, N), dtype=FIELD)
-        ndarray[LAG_t, ndim=2, mode='c'] lag_matrix = np.zeros(
-            (N, N), dtype=LAG)
+        ndarray[NODE_t, ndim=2, mode='c'] lag_matrix = np.zeros(
+            (N, N), dtype=NODE)
         double crossij, max
         int i, j, tau, k, argmax
 
@@ -74,7 +74,7 @@ def _cross_correlation_max(
                         max = crossij
                         argmax = tau
                 similarity_matrix[i, j] = <FIELD_t> (max / corr_range)
-                lag_matrix[i, j] = <LAG_t> (tau_max - argmax)
+                lag_matrix[i, j] = <NODE_t> (tau_max - argmax)
 
     return similarity_matrix, lag_matrix
 
